@@ -554,7 +554,7 @@ class World:
                     self.sit["C19.spawn_cmd" + (".locked" if self.pool.is_locked else "")] += 1
                 got = await self.command(cl, line)
                 self.note("cmd", c, act[2], got[:60])
-                if not got and not self.gone(cl) and act[2] != "flush":
+                if not got and not self.gone(cl):
                     self.violate("C19.concurrent", f"client {c}: no reply to {act[2]!r}")
             elif kind == "park":
                 got = await self.command(cl, "until-closed")
